@@ -14,14 +14,15 @@ Inductive hstep :=
 
 Inductive case :=
 (* the same inputs run several times (Go iterates the parameter map in a random order); outs = the distinct results *)
-| CUrl (base pattern : bytes) (pps : list (bytes * bytes)) (qps : qmap) (rs os : list bytes) (host : bytes)
+(* via_new: the base path went through client.New (else it was assigned to Runtime.BasePath directly) *)
+| CUrl (via_new : bool) (base pattern : bytes) (pps : list (bytes * bytes)) (qps : qmap) (rs os : list bytes) (host : bytes)
        (outs : list iobs)
 | CScheme (rs os : list bytes) (got : bytes)
 (* library models: url.PathEscape, url.PathUnescape, (&url.URL{Path: v}).EscapedPath, validEncoded via RawPath *)
 | CEsc (v pe : bytes) (un : option bytes) (ep : bytes)
 | CJoin (a b j : bytes)
 (* several operations built in sequence on ONE Runtime (host, base path, transport schemes fixed) *)
-| CHist (base : bytes) (rs : list bytes) (host : bytes) (steps : list hstep).
+| CHist (via_new : bool) (base : bytes) (rs : list bytes) (host : bytes) (steps : list hstep).
 
 Fixpoint insert_all {A} (x : A) (l : list A) : list (list A) :=
   match l with
@@ -92,10 +93,10 @@ Definition step_check (base : bytes) (rs : list bytes) (host : bytes) (s : hstep
 
 Definition check_case (c : case) : N :=
   match c with
-  | CUrl base pattern pps qps rs os host outs =>
-    let '(corr, prop) := url_check base pattern pps qps rs os host outs in verdict corr prop
-  | CHist base rs host steps =>
-    let rs' := map (step_check base rs host) steps in
+  | CUrl via_new base pattern pps qps rs os host outs =>
+    let '(corr, prop) := url_check (runtime_base via_new base) pattern pps qps rs os host outs in verdict corr prop
+  | CHist via_new base rs host steps =>
+    let rs' := map (step_check (runtime_base via_new base) rs host) steps in
     verdict (forallb fst rs') (forallb snd rs')
   | CScheme rs os got => verdict (bytes_eqb got (pick_scheme rs os)) (scheme_ok rs os got && scheme_offered rs os got)
   | CEsc v pe un ep =>
